@@ -1,5 +1,5 @@
 """C03 - no lost wake-up: a part that can move does move."""
-from .. import engine_line
+from .. import engine_line, modelgen
 
 SPEC = {
     'level': 'exploration',
@@ -36,6 +36,11 @@ def run(sh):
     from ..modelgen import DECIMAL
     engine_line.run_profile(sh, 'C03', 'blocking', n // 4, MONITORS, nontrivial, prefix='decimal_', overrides=DECIMAL,
                             tag='decimal')
+    # one-decimal (cycle, delay) sweep through a delay buffer
+    pol = ['prng', 'fifo', 'lifo', 'const']
+    for i in sh.share(270 if sh.tier == 'quick' else 810):
+        engine_line.run_spec(sh, 'C03', modelgen.generate_decimal_buffer(i, pol[i % 4]), MONITORS, nontrivial,
+                             prefix='decimal_sweep_')
 
 
 def replay(sh, v):
